@@ -32,10 +32,21 @@ pub fn gen_base(seed: u64, idx: u64) -> Plan {
             c.c2s = gen_wire(&mut r, false);
             c.s2c = gen_wire(&mut r, false);
         }
-        let role = match r.below(9) {
+        let role = match r.below(10) {
             8 if tls => 7, // the HTTP/2 client speaks plain TCP only
             x => x,
         };
+        if role == 9 {
+            // an upgraded websocket that is open (and echoing) when shutdown
+            // is requested; its client half-closes later
+            let mut w = crate::scn::c20::gen_valid_ws_conn(&mut r, &mut nonce, 3000 + i as u16);
+            w.start_ms = c.start_ms;
+            if tls {
+                w.kind = ConnKind::Tls;
+            }
+            conns.push(w);
+            continue;
+        }
         let mut steps = Vec::new();
         let mut reqs = Vec::new();
         match role {
@@ -194,7 +205,7 @@ pub fn gen_base(seed: u64, idx: u64) -> Plan {
     Plan {
         property: "C17".into(),
         seed: mix(seed, idx),
-        server: ServerPlan { mode, body_limit: 1024, api: ApiKind::Work, rt_override: None, tls },
+        server: ServerPlan { mode, body_limit: 1024, api: ApiKind::All, rt_override: None, tls },
         conns,
         shutdown: Some(ShutdownPlan {
             trigger: CloseTrigger::AfterEvent(u64::MAX),
@@ -250,6 +261,7 @@ impl Scenario for C17 {
             "waiter_checked",
             "started_handler_response_checked",
             "handler_started_during_drain",
+            "close_with_open_websocket",
         ]
     }
 
@@ -324,6 +336,9 @@ pub fn check_c17(
             | Ev::ClientClose
             | Ev::ClientReset
             | Ev::ReqSent
+            | Ev::ClientHalfClose
+            | Ev::WsExit
+            | Ev::WsBytes
             | Ev::ClientEof => {
                 // only what happens on first-epoch connections matters, and
                 // only until the close returned
@@ -337,6 +352,16 @@ pub fn check_c17(
     for (ci, cp) in plan.conns.iter().enumerate() {
         let obs = &out.conns[ci];
         if cp.gate != 0 {
+            continue;
+        }
+        if matches!(cp.reqs.first().map(|r| &r.expect), Some(Expect::Ws { .. })) {
+            // The channel was open before or while shutdown was requested: the
+            // bytes still flow unmodified until the client ends the exchange.
+            let upgraded_before = obs.by_req.first().cloned().flatten().map(|r| r.seq_done < creq.seq).unwrap_or(false);
+            if upgraded_before {
+                probes.push("close_with_open_websocket");
+                crate::scn::c20::check_ws_conn(ci, cp, obs, out, "c17.ws", &mut v, probes);
+            }
             continue;
         }
         let departs = cp.steps.iter().any(|s| matches!(s, Step::Close | Step::Reset | Step::HalfClose));
